@@ -312,3 +312,76 @@ REGISTER_PLUGIN(sim_detector, sim::SimDetector::create);
 REGISTER_PLUGIN(sim_action, sim::SimAction::create);
 REGISTER_PREKILL_HOOK(sim_hook, sim::SimHook::create);
 } // namespace Oomd
+
+namespace sim {
+std::function<void(const std::string&)> g_onWrapEnter;
+}
+// sim_wrap: transparent decorator around a *real* plugin created through the
+// real registry. It forwards init/prerun/run unchanged and logs entry, exit
+// and the value the real plugin returned, which gives exact invocation
+// boundaries in the event log.
+namespace sim {
+class SimWrap : public Oomd::Engine::BasePlugin {
+ public:
+  int init(const Oomd::Engine::PluginArgs& args,
+           const Oomd::PluginConstructionContext& context) override {
+    auto it = args.find("plugin");
+    auto wi = args.find("wid");
+    if (it == args.end() || wi == args.end())
+      return 1;
+    wid_ = wi->second;
+    inner_.reset(Oomd::getPluginRegistry().create(it->second));
+    if (!inner_)
+      return 1;
+    inner_->setName(it->second);
+    Oomd::Engine::PluginArgs rest = args;
+    rest.erase("plugin");
+    rest.erase("wid");
+    int r = inner_->initPlugin(rest, context);
+    serial_ = g_serial++;
+    Ev e;
+    e.kind = "wrap";
+    e.who = wid_;
+    e.a = "init";
+    e.b = it->second + " " + argsStr(rest);
+    e.res = r;
+    e.extra["serial"] = serial_;
+    record(std::move(e));
+    return r;
+  }
+  void prerun(Oomd::OomdContext& ctx) override {
+    record("wrap", wid_, "prerun-enter", "", serial_);
+    inner_->prerun(ctx);
+    record("wrap", wid_, "prerun-exit", "", serial_);
+  }
+  Oomd::Engine::PluginRet run(Oomd::OomdContext& ctx) override {
+    Ev e;
+    e.kind = "wrap";
+    e.who = wid_;
+    e.a = "enter";
+    e.n1 = serial_;
+    e.extra["ctx"] = actionCtxJson(ctx);
+    e.extra["rcg"] = rcg(ctx);
+    record(std::move(e));
+    if (g_onWrapEnter)
+      g_onWrapEnter(wid_);
+    auto r = inner_->run(ctx);
+    const char* rs = r == Oomd::Engine::PluginRet::CONTINUE
+        ? "C"
+        : (r == Oomd::Engine::PluginRet::STOP ? "S" : "A");
+    record("wrap", wid_, "exit", rs, serial_);
+    return r;
+  }
+  static SimWrap* create() {
+    return new SimWrap();
+  }
+
+ private:
+  std::string wid_;
+  std::unique_ptr<Oomd::Engine::BasePlugin> inner_;
+  int serial_ = -1;
+};
+} // namespace sim
+namespace Oomd {
+REGISTER_PLUGIN(sim_wrap, sim::SimWrap::create);
+}
